@@ -94,9 +94,17 @@ def episode_atoms(name: str, n_keys: int, n_steps: int, seed: int) -> dict:
             and np.allclose(np.asarray(d.site_xpos), np.asarray(ref.site_xpos), rtol=1e-4, atol=1e-4))
         ph = np.asarray(st.gait_phase, dtype=np.float64)
         A["GaitPhasesStartAtZeroAndPi"] &= bool(abs(ph[0]) < 1e-6 and abs(abs(ph[1]) - math.pi) < 1e-5)
-        s = st
         dt = float(env.dt) if hasattr(env, "dt") else 0.02
-        for j in range(n_steps if i == 0 else 0):
+        # stepped histories from the first initial state: as sampled, and (locomotion) with the command set to zero - the value
+        # `zero_command_probability` of the resets hand out; the gait clock runs at the state's frequency whatever the command
+        import equinox as eqx
+        starts = [st] if i == 0 else []
+        if i == 0 and name == "G1Locomotion":
+            starts.append(eqx.tree_at(lambda z: z.command, st, jnp.zeros_like(st.command)))
+        for j in [j for _ in list(starts) for j in range(n_steps)]:        # n_steps steps from each start, one after the other
+            if j == 0:
+                s_cur = starts.pop(0)
+            s = s_cur
             a = env.action_space.sample(key=jr.key(1000 + j))
             prev = np.asarray(s.gait_phase, dtype=np.float64)
             f = float(s.gait_frequency)
@@ -109,7 +117,7 @@ def episode_atoms(name: str, n_keys: int, n_steps: int, seed: int) -> dict:
             A["SigTerminalIsBooleanScalar"] &= bool(np.asarray(term).dtype == np.bool_ and np.asarray(term).shape == ())
             A["SigTruncatedIsBooleanScalar"] &= bool(np.asarray(trunc).dtype == np.bool_ and np.asarray(trunc).shape == ())
             if bool(term) or bool(trunc):
-                s = s2
+                s_cur = s2
                 continue
             cur = np.asarray(s2.gait_phase, dtype=np.float64)
             A["GaitPhasesStayWithinMinusPiPi"] &= bool(np.all(np.abs(cur) <= math.pi + 1e-5))
@@ -117,7 +125,7 @@ def episode_atoms(name: str, n_keys: int, n_steps: int, seed: int) -> dict:
             A["GaitPhasesHalfACycleApart"] &= bool(abs(abs(wrap(cur[1] - cur[0])) - math.pi) < 1e-3)
             inc = 2 * math.pi * f * dt
             A["GaitPhaseAdvancesByTwoPiFrequencyDt"] &= bool(all(abs(wrap(cur[k] - prev[k] - inc)) < 1e-3 for k in range(2)))
-            s = s2
+            s_cur = s2
     return {k: bool(v) for k, v in A.items()}
 
 
